@@ -467,7 +467,7 @@ func ruleC08_3(c *Ctx) {
 // ruleC08_4: quantisation of low-resolution coordinates.
 func ruleC08_4(c *Ctx) {
 	R := c.R
-	R.Rule("C08.4", "quantize is floor(64c + 1/2)/64 exactly when the path is low resolution and -128 <= c < 128, else the identity; every coordinate of a drawing operation and of StartPath goes through it, angles, flags, LOD and register numbers do not", 5)
+	R.Rule("C08.4", "quantize is floor(64c + 1/2)/64 exactly when the path is low resolution and -128 <= c < 128, else the identity; every coordinate of a drawing operation and of StartPath goes through it, angles, flags, LOD and register numbers do not; the resolution of a path is the public flag as of StartPath (start point included) and is not changed inside the path", 25)
 	m := c.newEncModel()
 	fn := c.Method("encode", "Encoder", "quantize", true)
 	if !m.ok || fn == nil {
@@ -537,6 +537,7 @@ func ruleC08_4(c *Ctx) {
 	for _, l := range []int64{'L', 'A', 'H', 'C'} {
 		check("flushDrawOps", map[string]*sym.Term{"mode": modeConst(m.modes["modeDrawing"], modeT), "err": noErr, "drawOp": u8(l)}, fmt.Sprintf("encode.(*Encoder).flushDrawOps#letter=%q:quantised", rune(l)))
 	}
+	c.checkResolutionLatch(m)
 }
 
 // ruleC08_5: the 4-byte form keeps sign and exponent and rounds the mantissa
